@@ -1683,6 +1683,8 @@ class Frame:
             return V(f"({oname} {d1.e} {d2.e})", ("tuple", [NUM, NUM]))
         if name in ("np.count_nonzero", "np.sum") and len(args) == 1 and args[0].ty == BOOL and not n.keywords:
             return V(f"(b2z {args[0].e})", INT)
+        if name == "np.count_nonzero" and len(args) == 1 and args[0].ty == opt(BOOL) and not n.keywords:
+            return V(f"(ob2z {args[0].e})", INT)  # a queue slot: np.count_nonzero(None) is 0
         if name == "np.sum" and len(args) == 1 and args[0].ty in (INT, NUM) and not n.keywords:
             return args[0]  # the sum of a scalar is the scalar
         raise Unsupported(f"builtin {name}")
